@@ -42,7 +42,7 @@ def new_interp(opts=None):
     return I
 
 
-def admits(I, facts, exact=None):
+def admits(I, facts, exact=None, refutable=False):
     """the assumptions collected on I's path together with `facts` are satisfiable"""
     s = z3.Solver()
     s.set('timeout', 5000)
@@ -51,7 +51,7 @@ def admits(I, facts, exact=None):
     for f in facts:
         s.add(f)
     r = s.check()
-    if r == z3.unsat:
+    if r == z3.unsat and not refutable:
         # the in-process solver is not trusted with a refutation on its own (it has been seen to
         # flip on quantified string facts): the query is repeated on the external solvers, and a
         # validated `sat` from any of them means the model does admit the real behaviour
@@ -92,7 +92,7 @@ def run(seed=0, n_random=25, full=True):
             g['fail'].append('%s: model excludes CPython result %r' % (desc, expected))
             return
         if exact:
-            ok2, r2 = admits(I, [term != ev])
+            ok2, r2 = admits(I, [term != ev], refutable=True)
             if ok2 and r2 == z3.sat:
                 g['fail'].append('%s: model also admits a result other than %r' % (desc, expected))
 
@@ -255,7 +255,7 @@ def run(seed=0, n_random=25, full=True):
         g['n'] += 1
         want = models.seq_of(I, VTuple([VInt(y) for y in ys]), Ty('int')).t
         ok, _ = admits(I, [sq.t == want])
-        ok2, r2 = admits(I, [sq.t != want])
+        ok2, r2 = admits(I, [sq.t != want], refutable=True)
         if not ok or (ok2 and r2 == z3.sat):
             g['fail'].append('%s on %r: model disagrees with %r' % (op, xs, ys))
 
